@@ -60,10 +60,42 @@ def _has_mut_param(b):
     return any(b["locals"][i]["ty"].startswith("&mut ") for i in range(1, b["arg_count"] + 1))
 
 
+MEDIUM = 45  # blocks (cleanup excluded): upper size of a "new private helper" that is inlined
+_KNOWN = None
+
+
+def known_functions():
+    """functions of the pinned revision (mirq/known_fns.json): they keep their identity; only
+    helpers that appeared later are normalised away just for being small and private"""
+    global _KNOWN
+    if _KNOWN is None:
+        import json, os
+        try:
+            with open(os.path.join(os.path.dirname(os.path.abspath(__file__)), "known_fns.json")) as f:
+                _KNOWN = set(json.load(f)["functions"])
+        except Exception:
+            _KNOWN = set()
+    return _KNOWN
+
+
+def _eligible_new_helper(b):
+    """a private, non-trait function that the pinned revision does not have: a helper somebody
+    extracted; moderate size"""
+    if b.get("kind") == "Closure" or b.get("impl_trait") or str(b.get("vis")) == "Public":
+        return False
+    if strip_generics(b["path"]) in known_functions():
+        return False
+    if b.get("kind") not in ("Fn", "AssocFn"):
+        return False
+    return sum(1 for bl in b["blocks"] if not bl.get("cleanup")) <= MEDIUM
+
+
 def _eligible(b):
     if b.get("kind") == "Closure" or b.get("impl_trait") or str(b.get("vis")) == "Public":
         return False
     if _writes_through_mut_param(b):
+        return True
+    if _eligible_new_helper(b):
         return True
     # a small helper that mutates its `&mut` argument through method calls only
     # (`fn collect(v: &mut Vec<T>, x: Option<T>) { if let Some(x) = x { v.push(x) } }`)
@@ -229,6 +261,91 @@ def _inline_closure_calls(j, caller, from_block):
     return used
 
 
+def _desugar_for_each(j):
+    """`it.for_each(|x| body)` with a closure created in the same function becomes the loop a
+    `for x in it { body }` desugars to: a header calling Iterator::next on the iterator, a switch
+    on the Option, the closure body spliced in with x = (next() as Some).0, back edge to the
+    header.  The loop-based rules (full forward traversal, one callback per item, drain until
+    empty, ..) then apply unchanged."""
+    done = []
+    by_path = {b["path"]: b for b in j["bodies"]}
+    for b in list(j["bodies"]):
+        bi = 0
+        while bi < len(b["blocks"]):
+            bl = b["blocks"][bi]
+            t = bl["term"]
+            bi += 1
+            if bl.get("cleanup") or t["k"] != "call" or t.get("target") is None:
+                continue
+            fn = _fn_of(t)
+            if not fn or fn.get("path") != "std::iter::Iterator::for_each" or len(t["args"]) != 2:
+                continue
+            clo = t["args"][1]
+            if clo["k"] not in ("copy", "move") or clo["place"]["p"]:
+                continue
+            cpath = _closure_of(b, clo["place"]["l"])
+            cb = by_path.get(cpath) if cpath else None
+            if cb is None or cb is b or cb["arg_count"] != 2:
+                continue
+            loc = t["loc"]
+            it_ty = (fn.get("args") or ["?"])[0]
+            nl = len(b["locals"])
+            L_it, L_clo, L_itref, L_opt, L_d, L_item, L_cloref, L_unit = range(nl, nl + 8)
+            b["locals"] += [{"ty": it_ty}, {"ty": b["locals"][clo["place"]["l"]]["ty"]}, {"ty": "&mut " + it_ty}, {"ty": "std::option::Option<?>"},
+                            {"ty": "isize"}, {"ty": "?"}, {"ty": "&mut " + b["locals"][clo["place"]["l"]]["ty"]}, {"ty": "()"}]
+            nb = len(b["blocks"])
+            B_head, B_sw, B_body, B_exit, B_unr = range(nb, nb + 5)
+            nextfn = {"path": "std::iter::Iterator::next", "krate": fn.get("krate", "core"), "full": "<%s as std::iter::Iterator>::next" % it_ty, "args": [it_ty],
+                      "kind": "AssocFn", "container": "std::iter::Iterator", "trait": "std::iter::Iterator", "self_ty": it_ty}
+            bl["stmts"].append({"k": "assign", "place": {"l": L_it, "p": []}, "rv": {"k": "use", "op": t["args"][0]}, "loc": loc})
+            bl["stmts"].append({"k": "assign", "place": {"l": L_clo, "p": []}, "rv": {"k": "use", "op": clo}, "loc": loc})
+            bl["term"] = {"k": "goto", "target": B_head, "loc": loc}
+            b["blocks"].append({"cleanup": False, "stmts": [{"k": "assign", "place": {"l": L_itref, "p": []}, "rv": {"k": "ref", "mut": True, "place": {"l": L_it, "p": []}}, "loc": loc}],
+                                "term": {"k": "call", "func": {"k": "const", "ty": "fn", "fn": nextfn}, "args": [{"k": "move", "place": {"l": L_itref, "p": []}}],
+                                         "dest": {"l": L_opt, "p": []}, "target": B_sw, "loc": loc}})
+            b["blocks"].append({"cleanup": False, "stmts": [{"k": "assign", "place": {"l": L_d, "p": []}, "rv": {"k": "discr", "place": {"l": L_opt, "p": []}, "enum": "std::option::Option", "variants": [["0", "None"], ["1", "Some"]]}, "loc": loc}],
+                                "term": {"k": "switch", "discr": {"k": "move", "place": {"l": L_d, "p": []}}, "targets": [["0", B_exit], ["1", B_body]], "otherwise": B_unr, "loc": loc}})
+            b["blocks"].append({"cleanup": False, "stmts": [
+                {"k": "assign", "place": {"l": L_item, "p": []}, "rv": {"k": "use", "op": {"k": "move", "place": {"l": L_opt, "p": [{"k": "downcast", "i": 1, "name": "Some"}, {"k": "field", "i": 0, "name": "0", "adt": "std::option::Option"}]}}}, "loc": loc},
+                {"k": "assign", "place": {"l": L_cloref, "p": []}, "rv": {"k": "ref", "mut": True, "place": {"l": L_clo, "p": []}}, "loc": loc}],
+                "term": {"k": "call", "func": {"k": "const", "ty": "fn", "fn": {"path": "<inlined closure>", "krate": j.get("crate")}}, "args": [], "dest": {"l": L_unit, "p": []}, "target": B_head, "loc": loc}})
+            b["blocks"].append({"cleanup": False, "stmts": [], "term": {"k": "goto", "target": t["target"], "loc": loc}})
+            b["blocks"].append({"cleanup": False, "stmts": [], "term": {"k": "unreachable", "loc": loc}})
+            _splice(b, B_body, cb, arg_ops=[{"k": "move", "place": {"l": L_cloref, "p": []}}, {"k": "move", "place": {"l": L_item, "p": []}}])
+            done.append(cpath)
+    if done:
+        j["bodies"] = [b for b in j["bodies"] if b["path"] not in set(done)]
+    return ["%s (for_each -> loop)" % c for c in done]
+
+
+def _inline_local_closure_calls(j):
+    """`let f = |x| ..; f(a); f(b)`: a closure created and called in the same function is
+    spliced in at each call; its body is dropped when nothing else can still call it"""
+    done = []
+    for b in list(j["bodies"]):
+        used = _inline_closure_calls(j, b, 0)
+        for cpath in set(used):
+            # still handed to somebody (a combinator, a thread, a field)?  then keep the body
+            escapes = False
+            for bl in b["blocks"]:
+                if bl.get("cleanup"):
+                    continue
+                t = bl["term"]
+                if t["k"] == "call":
+                    for a in t["args"]:
+                        if a["k"] in ("copy", "move") and not a["place"]["p"] and _closure_of(b, a["place"]["l"]) == cpath:
+                            escapes = True
+                for st in bl["stmts"]:
+                    if st["k"] == "assign" and st["rv"]["k"] == "agg" and st["rv"].get("agg") != "closure":
+                        for o in st["rv"].get("ops", []):
+                            if o["k"] in ("copy", "move") and not o["place"]["p"] and _closure_of(b, o["place"]["l"]) == cpath:
+                                escapes = True
+            if not escapes:
+                j["bodies"] = [x for x in j["bodies"] if x["path"] != cpath]
+            done.append("%s (local closure call inlined%s)" % (cpath, "" if not escapes else ", body kept"))
+    return done
+
+
 def inline_outparam_helpers(j):
     """rewrites j["bodies"] in place; returns the list of inlined helper paths"""
     crate = j.get("crate")
@@ -267,8 +384,10 @@ def inline_outparam_helpers(j):
                     continue
                 hof = True
             ss = sites.get(key, [])
-            small = sum(1 for bl in callee["blocks"] if not bl.get("cleanup")) <= SMALL
-            if not ss or (len(ss) != 1 and not ((small or hof) and len(ss) <= 4)):
+            nblk = sum(1 for bl in callee["blocks"] if not bl.get("cleanup"))
+            small = nblk <= SMALL or _eligible_new_helper(callee)
+            limit = 64 if nblk <= SMALL else 8
+            if not ss or (len(ss) != 1 and not ((small or hof) and len(ss) <= limit)):
                 continue
             if any(c is callee or c["blocks"][bi_]["term"].get("target") is None for c, bi_ in ss):
                 continue
@@ -301,5 +420,7 @@ def inline_outparam_helpers(j):
             break
         if not progress:
             break
+    done += _desugar_for_each(j)
+    done += _inline_local_closure_calls(j)
     j["inlined_helpers"] = done
     return done
